@@ -94,6 +94,8 @@ structure Client where
   beh : List Beh := []
   /-- that many of the next stream opens fail although the `Terms` probe before them succeeded -/
   failOpen : Nat := 0
+  /-- that many of the next pending-batch checks (`checkPendingBatch` after a stream was opened) fail -/
+  failBatch : Nat := 0
   /-- left the modelled fragment (see header) -/
   chaos : Bool := false
 deriving DecidableEq, Repr
@@ -130,6 +132,7 @@ inductive HsRes
   | errShutdown    -- an error was returned *and* the reader goroutine runs `HandleServerShutdown(nil)`
   | errRejected    -- an error was returned; the stream is still up
   | errConnect     -- `connectServerStream` returned an error (there is no stream)
+  | errBatch       -- `checkPendingBatch` failed on the freshly opened (live) stream
 deriving DecidableEq, Repr
 
 def addAcct (l : List Nat) (a : Nat) : List Nat := if a ∈ l then l else l ++ [a]
@@ -140,10 +143,13 @@ def Client.connectAndAuth (v : Variant) (inline : Client → Client × HsRes) (c
     Client × HsRes :=
   -- "Don't subscribe more than once."
   if a ∈ c.accts then (c, .ok) else
+  let c0 := c
   -- needToConnect := c.serverStream == nil
   let c := if c.isOpen then c else c.connectStream
   -- "connecting server stream failed": returned before the map insertion
   if !c.isOpen then (c, .errConnect) else
+  -- "checking pending batch failed" (only after a first connect): the new stream stays, the account is not inserted
+  if !c0.isOpen && c.failBatch != 0 then ({ c with failBatch := c.failBatch - 1 }, .errBatch) else
   -- c.subscribedAccts[acctPubKey] = sub   (before authenticate, never removed on failure)
   let c := { c with accts := addAcct c.accts a }
   if !c.cur.alive then
@@ -190,6 +196,9 @@ def Client.reconnectOnce (v : Variant) (pick : List Nat → List Nat) (hs : Clie
   let c := c.connectStream
   -- `if err != nil { return err }`: the map is untouched
   if !c.isOpen then (c, .errConnect) else
+  -- `checkPendingBatch` fails: the (closed) subscriptions are replaced by inactive ones for the same accounts, the
+  -- error is returned; the new stream stays open until the next attempt closes it
+  if c.failBatch != 0 then ({ c with failBatch := c.failBatch - 1 }, .errBatch) else
   -- collect the keys in map order and delete them all
   { c with accts := [] }.resubLoop v hs (pick c.accts)
 
@@ -256,8 +265,8 @@ inductive Ret
 deriving DecidableEq, Repr
 
 def Client.step (v : Variant) (pick : List Nat → List Nat) (c : Client) (op : Op) : Client × Ret :=
-  -- every nested reconnect / handler retry consumes a behaviour of the script or a failing open
-  let depth := c.beh.length + c.failOpen
+  -- every nested reconnect / handler retry consumes a behaviour of the script, a failing open or a failing batch check
+  let depth := c.beh.length + c.failOpen + c.failBatch
   let hs := hsLevel v pick depth
   let hsd := fun c : Client => c.handleShutdown v pick hs depth
   match op with
@@ -275,7 +284,9 @@ def Client.step (v : Variant) (pick : List Nat → List Nat) (c : Client) (op : 
     if c.isOpen && c.cur.alive then (c.readerShutdown v hsd depth, .none_) else (c, .none_)
 
 /-- install the auctioneer's script for the next op -/
-def Client.script (c : Client) (refuse : Nat) (beh : List Beh) (failOpen : Nat := 0) : Client :=
-  { c with refuse := refuse, beh := beh, failOpen := failOpen, mainErrs := [], handlerRes := [] }
+def Client.script (c : Client) (refuse : Nat) (beh : List Beh) (failOpen : Nat := 0) (failBatch : Nat := 0) :
+    Client :=
+  { c with refuse := refuse, beh := beh, failOpen := failOpen, failBatch := failBatch, mainErrs := [],
+           handlerRes := [] }
 
 end Pool.C18
